@@ -6,7 +6,7 @@ id=$1; p=$2; c=$3; t=${4:-quick}
 wt=/tmp/swt_${id}_$$; out=/tmp/swo_${id}_$$
 export GOFLAGS=-mod=mod GOPROXY=off
 git -C /repo worktree add --detach $wt HEAD >/dev/null 2>&1 || exit 3
-git -C $wt apply $p || { git -C /repo worktree remove --force $wt; exit 3; }
+[ -s $p ] && { git -C $wt apply $p || { git -C /repo worktree remove --force $wt; exit 3; }; }
 mkdir -p $out
 cd /verif && VERIF_REPO=$wt VERIF_OUT=$out timeout 3000 python3-vt checks/$c $t 2>&1 | grep -E "^(VIOLATION|INCONCLUSIVE|KNOWN|C[0-9]+ )|assertion" | cut -c1-300 | head -${5:-10}
 cd /; git -C /repo worktree remove --force $wt; rm -rf $out
